@@ -121,6 +121,7 @@ class BtProp(Prop):
     keep_own = True        # own-state column of N
     keep_cur = False       # current-child column of N
     exhaustive = False     # thorough tier adds the exhaustive small-scope block
+    invalid_block = None   # (profile, clauses not judged): extra implementation-only scenarios with INVALID outcomes
     assumptions = ["visitors / handlers do not mutate the tree mid-tick", "user callbacks do not raise",
                    "integer clock (fake time module installed by the harness)",
                    "leaf outcomes are SUCCESS / FAILURE / RUNNING"]
@@ -144,6 +145,16 @@ class BtProp(Prop):
             out.append(bt_gen.gen_scenario(rng, prof, "%s_%s_%d" % (self.pid, tier[0], i)))
         if tier == "thorough" and self.exhaustive:
             out += exhaustive_block(self.pid)
+        if self.invalid_block is not None and tier != "search":
+            # OUTSIDE THE MODEL (and outside the theorems' ValidEnv): leaves whose update() returns INVALID. The code's
+            # behaviour there is judged by the Python oracle alone, for the clauses that are meaningful for it.
+            profn, skip = self.invalid_block
+            prof = bt_gen.Profile(**dict(vars(bt_gen.PROFILES[profn]), w_outcome={"R": 35, "S": 30, "F": 20, "I": 15}))
+            for i in range(max(200, n // 10)):
+                sc = bt_gen.gen_scenario(rng, prof, "%s_%s_inv_%d" % (self.pid, tier[0], i))
+                sc.meta["impl_only"] = True
+                sc.meta["skip_clauses"] = list(skip)
+                out.append(sc)
         return out
 
     def run_impl(self, s):
@@ -446,6 +457,7 @@ def composite_entries(sh, o, kind):
 class C03(BtProp):
     pid = "C03"
     exhaustive = True
+    invalid_block = ("seq", ["memory-skip"])
     profiles = [("seq", 0.7), ("coreprobe", 0.3)]
     keep = "TN"
     keep_events = "EUXY"
@@ -543,6 +555,7 @@ class C03(BtProp):
 class C04(BtProp):
     pid = "C04"
     exhaustive = True
+    invalid_block = ("sel", ["interrupt-on-change"])
     profiles = [("sel", 0.7), ("coreprobe", 0.3)]
     keep = "TN"
     keep_events = "EUXY"
@@ -780,6 +793,7 @@ def dec_kind(sh, i):
 @register
 class C09(BtProp):
     pid = "C09"
+    invalid_block = ("dec", [])
     profiles = [("dec", 0.6), ("stock", 0.2), ("coreprobe", 0.2)]
     keep = "TNW"
     keep_events = "EUXY"
@@ -1142,6 +1156,37 @@ class C17(BtProp):
                             r = _cmp(a[3], v, val_parse(a[4])) if ok else False
                             if r is not None:
                                 want = "S" if r else ("F" if kind == "cv" else "R")
+                        elif kind == "cvs":
+                            # every check on its own variable (two checks may name the same variable), combined with
+                            # the logical operator; a missing variable fails the behaviour
+                            import functools
+                            import operator as _op
+                            nchk = int(a[1])
+                            checks = [a[2 + 4 * j:6 + 4 * j] for j in range(nchk)]
+                            logic = a[2 + 4 * nchk]
+                            res_keys = a[3 + 4 * nchk:]
+                            rs = []
+                            for (ck, cp, cop, cv_) in checks:
+                                ok, v = _get(W, ck, cp)
+                                if not ok:
+                                    rs = None
+                                    break
+                                r = _cmp(cop, v, val_parse(cv_))
+                                if r is None:
+                                    rs = "?"
+                                    break
+                                rs.append(bool(r))
+                            if rs is None:
+                                want = "F"
+                            elif rs != "?":
+                                red = functools.reduce({"and": _op.and_, "or": _op.or_, "xor": _op.xor}[logic], rs)
+                                want = "S" if red else "F"
+                                if res_keys and st == want:
+                                    pub = [o.W.get(rk) for rk in res_keys]
+                                    exp = ["b:1" if r else "b:0" for r in rs]
+                                    if pub != exp:
+                                        out.append(viol("cvs-publish", "CheckBlackboardVariableValues %d results %s but "
+                                                        "published %s" % (i, exp, pub), kind="cvs"))
                         elif kind == "unset":
                             want = "S"
                         elif kind == "set":
